@@ -29,6 +29,7 @@ import (
 	"github.com/nyaruka/goflow/flows/definition"
 	"github.com/nyaruka/goflow/flows/definition/migrations"
 	"github.com/nyaruka/goflow/flows/engine"
+	"github.com/nyaruka/goflow/flows/modifiers"
 	"github.com/nyaruka/goflow/flows/resumes"
 	"github.com/nyaruka/goflow/flows/triggers"
 	"github.com/nyaruka/goflow/services/airtime/dtone"
@@ -567,7 +568,11 @@ func sprintOut(out map[string][]byte, name string, sprint flows.Sprint) {
 	out[name+".modifiers"] = jsonx.MustMarshal(sprint.Modifiers())
 }
 
-func runEngine(p *engineParams) (map[string][]byte, error) {
+func runEngine(p *engineParams) (map[string][]byte, error) { return runEngineShared(p, nil) }
+
+// runEngineShared: with keep != nil the session assets are built by the first execution and REUSED by the later ones (the
+// first execution sees a cold flow cache, the repetitions a warm one)
+func runEngineShared(p *engineParams, keep *flows.SessionAssets) (map[string][]byte, error) {
 	resetSources(p.FixedClock)
 	mocks := map[string][]*httpx.MockResponse{}
 	for k, v := range p.Mocks {
@@ -588,9 +593,17 @@ func runEngine(p *engineParams) (map[string][]byte, error) {
 	if err != nil {
 		return nil, err
 	}
-	sa, err := engine.NewSessionAssets(env, src, nil)
-	if err != nil {
-		return nil, err
+	var sa flows.SessionAssets
+	if keep != nil && *keep != nil {
+		sa = *keep
+	} else {
+		sa, err = engine.NewSessionAssets(env, src, nil)
+		if err != nil {
+			return nil, err
+		}
+		if keep != nil {
+			*keep = sa
+		}
 	}
 	missing := []string{}
 	trigger, err := triggers.ReadTrigger(sa, p.Trigger, func(r assets.Reference, e error) { missing = append(missing, r.String()) })
@@ -1076,6 +1089,64 @@ func invalidDefScenario(g *gen, idx int) *scenario {
 }
 
 // ------------------------------------------------------------------------------------------------
+// family: definition/legacy-airtime-errors — a legacy (v11) flow whose airtime rule set cannot be migrated for TWO
+// different reasons (an amount outside the exponent range the migration accepts, and two countries giving different
+// amounts in one currency): which reason is reported (migrations.MigrateToLatest, definition.ReadFlow, the failure
+// event of a session that enters the flow) must be the same on every call.
+func legacyAirtimeScenario(g *gen, idx int) *scenario {
+	countries := []string{"RW", "EC", "PR", "US", "UG", "KE", "CO", "GB"}
+	for i := len(countries) - 1; i > 0; i-- {
+		j := g.r.Intn(i + 1)
+		countries[i], countries[j] = countries[j], countries[i]
+	}
+	n := g.r.Range(3, 6)
+	config := obj{}
+	for i, c := range countries[:n] {
+		switch {
+		case i == 0:
+			config[c] = obj{"currency_code": "RWF", "amount": json.RawMessage(hx.Pick(g.r, []string{"1e200", "1e-150", "5e101"}))}
+		case i <= 2:
+			config[c] = obj{"currency_code": "USD", "amount": 2 + i}
+		default:
+			config[c] = obj{"currency_code": hx.Pick(g.r, []string{"USD", "RWF", "KES"}), "amount": json.RawMessage(hx.Pick(g.r, []string{"1", "2.5", "1e150", "7"}))}
+		}
+	}
+	legacyUUID, rsUUID := g.uuid(), g.uuid()
+	legacyDef := obj{
+		"metadata": obj{"uuid": legacyUUID, "name": "Legacy airtime", "revision": 1, "expires": 10},
+		"version":  "11.12", "flow_type": "M", "base_language": "eng", "entry": rsUUID, "action_sets": []any{},
+		"rule_sets": []any{obj{"uuid": rsUUID, "x": 0, "y": 0, "label": "Transfer", "ruleset_type": "airtime", "operand": "@step.value",
+			"rules": []any{
+				obj{"uuid": g.uuid(), "category": obj{"eng": "Success"}, "test": obj{"type": "airtime_status", "exit_status": "success"}},
+				obj{"uuid": g.uuid(), "category": obj{"eng": "Failure"}, "test": obj{"type": "airtime_status", "exit_status": "failed"}}},
+			"config": config}},
+	}
+	parent := newFlowB(g, "Parent of legacy airtime")
+	parent.addNode([]any{obj{"uuid": g.uuid(), "type": "send_msg", "text": "before"},
+		obj{"uuid": g.uuid(), "type": "enter_flow", "flow": obj{"uuid": legacyUUID, "name": "Legacy airtime"}}}, nil, 1)
+	parent.addNode([]any{obj{"uuid": g.uuid(), "type": "send_msg", "text": "after"}}, nil, 1)
+	parentDef := parent.finish()
+	assetsObj, _ := stdAssets(g, []any{parentDef, legacyDef}, 0, nil, obj{})
+	trigger := obj{"type": "manual", "triggered_on": "2024-01-01T00:00:00.000000000-00:00", "environment": envJSON,
+		"flow": obj{"uuid": parent.uuid, "name": parent.name}, "contact": contactJSON(g, map[string]string{}, nil)}
+	p := &invalidDefParams{Feature: "legacy-airtime-errors", Child: mustJSON(legacyDef),
+		Engine: &engineParams{Feature: "invalid-child", Assets: mustJSON(assetsObj), Trigger: mustJSON(trigger)}}
+	s := &scenario{Family: "definition/legacy-airtime-errors", Index: idx, Params: p, Nontrivial: true}
+	s.run = func() (map[string][]byte, error) {
+		out, err := runEngine(p.Engine)
+		if err != nil {
+			out = map[string][]byte{"engine_error": []byte(err.Error())}
+		}
+		_, merr := migrations.MigrateToLatest(p.Child, migrations.DefaultConfig)
+		out["migrate_error"] = []byte(fmt.Sprint(merr))
+		_, rerr := definition.ReadFlow(p.Child, migrations.DefaultConfig)
+		out["readflow_error"] = []byte(fmt.Sprint(rerr))
+		return out, nil
+	}
+	return s
+}
+
+// ------------------------------------------------------------------------------------------------
 // family: engine/asset-order — accessors of the asset collections that answer "the first ..." or "all ...":
 // FieldAssets.FirstOfType (parent state / district field used to resolve a bare district / ward name), GroupAssets.All
 // (order in which query based groups are re-evaluated = order of the groups in the event and on the contact),
@@ -1253,6 +1324,132 @@ func datesScenario(g *gen, feature string, idx int) *scenario {
 	p := &engineParams{Feature: feature, Assets: mustJSON(assetsObj), Trigger: mustJSON(trigger), Resumes: resumesL}
 	s := &scenario{Family: "dates/" + feature, Index: idx, Params: p, Nontrivial: true}
 	s.run = func() (map[string][]byte, error) { return runEngine(p) }
+	return s
+}
+
+// ------------------------------------------------------------------------------------------------
+// family: process-env — the fresh-process stream runs its children under DIFFERENT process environments (TZ, LANG,
+// LC_ALL, LANGUAGE): none of them is an input of the engine.  Scenarios that name a timezone the way a contact or a flow
+// author can:
+//   - timezone-name-from-input: set_contact_timezone with the text the contact sent ("Local", a real zone, nonsense),
+//     format_datetime / parse_datetime with a zone argument, a timezone modifier read from JSON;
+//   - timezone-name-stored: the environment / the contact of the trigger carry the zone name "Local" (host-stored JSON).
+// Go's time.LoadLocation("Local") answers the zone of the PROCESS.
+
+type processEnvParams struct {
+	Feature  string        `json:"feature"`
+	Modifier string        `json:"modifier,omitempty"`
+	Engine   *engineParams `json:"engine"`
+}
+
+func processEnvScenario(g *gen, feature string, idx int) *scenario {
+	f := newFlowB(g, "Process env "+feature)
+	env := obj{"allowed_languages": []string{"eng"}, "date_format": "YYYY-MM-DD", "time_format": "hh:mm", "timezone": "Africa/Kigali"}
+	contact := contactJSON(g, map[string]string{}, nil)
+	var resumesL []string
+	p := &processEnvParams{Feature: feature}
+	show := "It is @(format_datetime(now(), \"YYYY-MM-DD hh:mm\")) for you (@contact.timezone), @(format_datetime(\"2025-01-01T12:00:00Z\", \"YYYY-MM-DD hh:mm\")), @(datetime(\"2025-07-01 09:30\"))"
+	switch feature {
+	case "timezone-name-from-input":
+		zone := "Local"
+		if g.r.Chance(1, 5) {
+			zone = hx.Pick(g.r, []string{"Africa/Kigali", "UTC", "Nowhere/Land", "local"})
+		}
+		r, _, ne := f.switchRouter("@input.text", [][2]any{{"has_any_word", []string{"never"}}}, true, "Zone")
+		f.addRouterNode([]any{}, r, ne)
+		acts := []any{}
+		if g.r.Chance(2, 3) {
+			acts = append(acts, obj{"uuid": g.uuid(), "type": "set_contact_timezone", "timezone": "@input.text"})
+		}
+		acts = append(acts, obj{"uuid": g.uuid(), "type": "send_msg", "text": show})
+		if g.r.Chance(2, 3) || len(acts) == 1 {
+			acts = append(acts, obj{"uuid": g.uuid(), "type": "send_msg",
+				"text": "There: @(format_datetime(\"2025-01-01T12:00:00Z\", \"YYYY-MM-DD hh:mm\", input.text)) / @(parse_datetime(\"2025-01-01 12:00\", \"YYYY-MM-DD hh:mm\", input.text))"})
+		}
+		f.addNode(acts, nil, 1)
+		resumesL = []string{zone}
+		p.Modifier = string(mustJSON(obj{"type": "timezone", "timezone": zone}))
+	case "timezone-name-stored":
+		if g.r.Bool() {
+			env["timezone"] = "Local"
+		} else {
+			contact["timezone"] = "Local"
+		}
+		f.addNode([]any{obj{"uuid": g.uuid(), "type": "send_msg", "text": show}}, nil, 1)
+	}
+	def := f.finish()
+	assetsObj, _ := stdAssets(g, []any{def}, 0, nil, obj{})
+	trigger := obj{"type": "manual", "triggered_on": "2024-01-01T00:00:00.000000000-00:00", "environment": env,
+		"flow": obj{"uuid": f.uuid, "name": f.name}, "contact": contact}
+	p.Engine = &engineParams{Feature: feature, Assets: mustJSON(assetsObj), Trigger: mustJSON(trigger), Resumes: resumesL}
+	s := &scenario{Family: "process-env/" + feature, Index: idx, Params: p, Nontrivial: true}
+	s.run = func() (out map[string][]byte, err error) {
+		out, err = runEngine(p.Engine)
+		if err != nil {
+			return nil, err
+		}
+		if p.Modifier != "" {
+			func() {
+				defer func() {
+					if r := recover(); r != nil {
+						out["modifier"] = []byte(fmt.Sprint("panic: ", r))
+					}
+				}()
+				m, merr := modifiers.ReadModifier(nil, []byte(p.Modifier), assets.IgnoreMissing)
+				if merr != nil {
+					out["modifier"] = []byte("ERR: " + merr.Error())
+				} else {
+					out["modifier"] = jsonx.MustMarshal(m)
+				}
+			}()
+		}
+		return out, nil
+	}
+	return s
+}
+
+// ------------------------------------------------------------------------------------------------
+// family: engine/cold-vs-warm-flow-cache — ONE SessionAssets for all executions of the scenario: the first execution finds
+// the flow cache cold, the repetitions find it warm.  The parent flow (current spec) enters a child that is stored BELOW
+// the current spec version (13.0.0 with `templating`, or a legacy v11 definition) and is therefore migrated when it is
+// first loaded, in the middle of the sprint.  "Same assets, trigger, resumes, clock, UUID source and random source":
+// what is cached is not an input.
+func coldWarmScenario(g *gen, idx int) *scenario {
+	childUUID := g.uuid()
+	var childDef obj
+	kind := hx.Pick(g.r, []string{"spec-13.0-templating", "spec-13.0-templating", "legacy-v11"})
+	switch kind {
+	case "spec-13.0-templating":
+		childDef = obj{"uuid": childUUID, "name": "Stored child", "spec_version": "13.0.0", "language": "eng", "type": "messaging", "revision": 3,
+			"expire_after_minutes": 30, "localization": obj{},
+			"nodes": []any{obj{"uuid": g.uuid(), "actions": []any{
+				obj{"uuid": g.uuid(), "type": "send_msg", "text": "Hi @contact.name",
+					"templating": obj{"template": obj{"uuid": g.uuid(), "name": "greeting"}, "variables": []string{"@contact.name"}}},
+				obj{"uuid": g.uuid(), "type": "send_msg", "text": "and " + g.word()}},
+				"exits": []any{obj{"uuid": g.uuid()}}}}}
+	default:
+		rs, as := g.uuid(), g.uuid()
+		childDef = obj{"metadata": obj{"uuid": childUUID, "name": "Stored child", "revision": 1, "expires": 10},
+			"version": "11.12", "flow_type": "M", "base_language": "eng", "entry": rs,
+			"rule_sets": []any{obj{"uuid": rs, "x": 0, "y": 0, "label": "Name", "ruleset_type": "expression", "operand": "@contact.name",
+				"rules": []any{
+					obj{"uuid": g.uuid(), "category": obj{"eng": "Has"}, "test": obj{"type": "contains_any", "test": obj{"eng": "ann bob"}}, "destination": as, "destination_type": "A"},
+					obj{"uuid": g.uuid(), "category": obj{"eng": "Other"}, "test": obj{"type": "true"}, "destination": as, "destination_type": "A"}}}},
+			"action_sets": []any{obj{"uuid": as, "x": 0, "y": 100, "destination": nil, "exit_uuid": g.uuid(),
+				"actions": []any{obj{"type": "reply", "uuid": g.uuid(), "msg": obj{"eng": "Hello from the legacy child " + g.word()}}}}}}
+	}
+	parent := newFlowB(g, "Parent of stored child")
+	parent.addNode([]any{obj{"uuid": g.uuid(), "type": "send_msg", "text": "before"},
+		obj{"uuid": g.uuid(), "type": "enter_flow", "flow": obj{"uuid": childUUID, "name": "Stored child"}}}, nil, 1)
+	parent.addNode([]any{obj{"uuid": g.uuid(), "type": "send_msg", "text": "after"}}, nil, 1)
+	parentDef := parent.finish()
+	assetsObj, _ := stdAssets(g, []any{parentDef, childDef}, 0, nil, obj{})
+	trigger := obj{"type": "manual", "triggered_on": "2024-01-01T00:00:00.000000000-00:00", "environment": envJSON,
+		"flow": obj{"uuid": parent.uuid, "name": parent.name}, "contact": contactJSON(g, map[string]string{}, nil)}
+	p := &engineParams{Feature: "cold-vs-warm-flow-cache:" + kind, Assets: mustJSON(assetsObj), Trigger: mustJSON(trigger)}
+	s := &scenario{Family: "engine/cold-vs-warm-flow-cache", Index: idx, Params: p, Nontrivial: true}
+	var shared flows.SessionAssets
+	s.run = func() (map[string][]byte, error) { return runEngineShared(p, &shared) }
 	return s
 }
 
